@@ -252,7 +252,7 @@ fn cli_twice(bin: &std::path::Path, case: &Case, text: &str, rf: &RefOut, t: &mu
         t.violation("C10.process_outcome_differs", format!("two runs of cteepbd on the same file end differently: {:?}/{:?} vs {:?}/{:?}", r1.code, r1.signal, r2.code, r2.signal), wit);
     } else if r1.code == Some(0) {
         let rep = |s: &str| -> String { s.split("** Eficiencia energética").nth(1).unwrap_or("").to_string() };
-        if !cli::reports_equal(&rep(&r1.stdout), &rep(&r2.stdout), report_slack(rf)) {
+        if !cli::reports_equal(&comparable_report(rep(&r1.stdout).trim(), rf), &comparable_report(rep(&r2.stdout).trim(), rf), report_slack(rf)) {
             t.violation("C10.process_report_differs", "two runs of cteepbd on the same file print different reports".into(), || {
                 let mut w = wit();
                 w["first"] = json!(rep(&r1.stdout));
@@ -288,6 +288,10 @@ pub fn json_diff(a: &Value, b: &Value, path: &str, band: &dyn Fn(&str) -> f64) -
             }
         }
         (Value::Object(x), Value::Object(y)) => {
+            // by-carrier maps of the building totals list a carrier only when its amount is non-zero,
+            // which for a rounding residue can differ between two evaluations: a missing key means 0
+            let lenient = path.ends_with(".by_cr") || path.ends_with(".grid_by_cr") || path.ends_with(".epus_by_cr");
+            let zero = Value::from(0.0);
             for (k, v) in x {
                 match y.get(k) {
                     Some(w) => {
@@ -295,12 +299,23 @@ pub fn json_diff(a: &Value, b: &Value, path: &str, band: &dyn Fn(&str) -> f64) -
                             return Some(d);
                         }
                     }
+                    None if lenient && v.is_number() => {
+                        if let Some(d) = json_diff(v, &zero, &format!("{path}.{k}"), band) {
+                            return Some(d);
+                        }
+                    }
                     None => return Some(format!("{path}.{k}: missing in second")),
                 }
             }
-            for k in y.keys() {
+            for (k, w) in y {
                 if !x.contains_key(k) {
-                    return Some(format!("{path}.{k}: missing in first"));
+                    if lenient && w.is_number() {
+                        if let Some(d) = json_diff(&zero, w, &format!("{path}.{k}"), band) {
+                            return Some(d);
+                        }
+                    } else {
+                        return Some(format!("{path}.{k}: missing in first"));
+                    }
                 }
             }
             None
@@ -330,6 +345,20 @@ pub fn json_diff(a: &Value, b: &Value, path: &str, band: &dyn Fn(&str) -> f64) -
             }
             None
         }
+        (Value::String(x), Value::String(y)) => {
+            // numbers stored as text (misc indicators): compare as numbers at their printed precision
+            match (x.parse::<f64>(), y.parse::<f64>()) {
+                (Ok(p), Ok(q)) => {
+                    if (p - q).abs() <= 1.1e-3 + band(path) {
+                        None
+                    } else {
+                        Some(format!("{path}: {x} vs {y}"))
+                    }
+                }
+                _ if x == y => None,
+                _ => Some(format!("{path}: {x:?} vs {y:?}")),
+            }
+        }
         (x, y) => {
             if x == y {
                 None
@@ -341,8 +370,8 @@ pub fn json_diff(a: &Value, b: &Value, path: &str, band: &dyn Fn(&str) -> f64) -
 }
 
 pub fn run(ctx: &Ctx) -> Report {
-    let total = ctx.cases(6_000, 200_000);
-    let repeats = if ctx.thorough() { 32 } else { 8 };
+    let total = ctx.cases(6_000, 60_000);
+    let repeats = if ctx.thorough() { 16 } else { 8 };
     let cli_every = if ctx.thorough() { 100 } else { 60 };
     let tally = run_sharded(ctx, total, |idx, r, t| {
         let mut o = GenOpts::default();
@@ -372,7 +401,7 @@ pub fn run(ctx: &Ctx) -> Report {
     }
     Report {
         tally,
-        rule: "each generated components file (multi-system, auxiliaries on several systems, metadata, hostile comments) is (b) parsed and evaluated again 8 (thorough: 32) times in fresh threads - the carrier and regenerated-auxiliary orders actually produced are recorded -, (a) rewritten by 1-4 of {line shuffle, splitting lines into 2-3 with the same tags, consistent id renumbering incl. negative ids, comment lines and trailing comments, blank lines, header line, BOM, padding / tabs / CRLF, id 0 omitted} and evaluated again, and (c) every ~60th file is run twice through the real binary (plain report and JSON compared); non-trivial = the file evaluates, has at least two carriers, and either two distinct iteration orders were seen or a rewriting was applied; distinct = distinct (case, rewriting seed)".into(),
+        rule: "each generated components file (multi-system, auxiliaries on several systems, metadata, hostile comments) is (b) parsed and evaluated again 8 (thorough: 16) times in fresh threads - the carrier and regenerated-auxiliary orders actually produced are recorded -, (a) rewritten by 1-4 of {line shuffle, splitting lines into 2-3 with the same tags, consistent id renumbering incl. negative ids, comment lines and trailing comments, blank lines, header line, BOM, padding / tabs / CRLF, id 0 omitted} and evaluated again, and (c) every ~60th file is run twice through the real binary (plain report and JSON compared); non-trivial = the file evaluates, has at least two carriers, and either two distinct iteration orders were seen or a rewriting was applied; distinct = distinct (case, rewriting seed)".into(),
         assumptions: vec![
             "rewritings change summation order: comparison within atol 1e-4 + rtol * cancellation scale; repetitions of the same text within 2e-6 of the scale".into(),
             "SALIDA and DEMANDA lines have no id-less form in the documented format and are not rewritten that way".into(),
@@ -388,4 +417,65 @@ pub fn replay(ctx: &Ctx, _monitor: &str, w: &Value) -> Option<Report> {
     let mut t = Tally::default();
     check_case(ctx, &case, &rw, 64, ctx.cli_debug.is_some(), &mut t);
     Some(Report { tally: t, rule: "replay".into(), assumptions: vec![], quotas: vec![] })
+}
+
+/// `vmon C10-miri --miri-outputs DIR`: compare the lines printed by the Miri driver under each seed
+pub fn run_miri(ctx: &Ctx) -> Report {
+    let mut t = Tally::default();
+    let dir = ctx.miri_outputs.clone().unwrap_or_else(|| ctx.verif.join(".build").join("miri-out"));
+    let mut outputs: Vec<(u64, Vec<String>)> = vec![];
+    if let Ok(rd) = std::fs::read_dir(&dir) {
+        for e in rd.filter_map(|e| e.ok()) {
+            let name = e.file_name().to_string_lossy().to_string();
+            if let Some(seed) = name.strip_prefix("seed_").and_then(|x| x.strip_suffix(".txt")).and_then(|x| x.parse::<u64>().ok()) {
+                let txt = std::fs::read_to_string(e.path()).unwrap_or_default();
+                let lines: Vec<String> = txt.lines().filter(|l| l.starts_with("case ")).map(|l| l.to_string()).collect();
+                if lines.is_empty() {
+                    let err = std::fs::read_to_string(dir.join(format!("seed_{seed}.err"))).unwrap_or_default();
+                    t.harness_error(format!("Miri seed {seed} produced no output: {}", err.lines().rev().take(3).collect::<Vec<_>>().join(" | ")));
+                } else {
+                    outputs.push((seed, lines));
+                }
+            }
+        }
+    }
+    outputs.sort();
+    if outputs.len() < 2 {
+        t.harness_error(format!("fewer than two Miri outputs in {}", dir.display()));
+        return Report { tally: t, rule: "miri".into(), assumptions: vec![], quotas: vec![] };
+    }
+    // drop the fields that legitimately differ (the orders themselves) before comparing
+    let strip = |l: &str| -> String { l.split(' ').filter(|f| !f.starts_with("order=") && !f.starts_with("aux_order=")).collect::<Vec<_>>().join(" ") };
+    let field = |l: &str, name: &str| -> String { l.split(' ').find_map(|f| f.strip_prefix(name)).unwrap_or("").to_string() };
+    let (seed0, base) = outputs[0].clone();
+    for (seed, lines) in &outputs {
+        t.evaluations += lines.len() as u64;
+        t.cases += 1;
+        if lines.len() != base.len() {
+            t.violation("C10.miri.outcome_differs_between_hash_seeds", format!("Miri seed {seed} prints {} result lines, seed {seed0} prints {}", lines.len(), base.len()), || json!({"kind": "miri", "seed": seed}));
+            continue;
+        }
+        for (a, b) in base.iter().zip(lines.iter()) {
+            let (oa, ob) = (field(a, "outcome="), field(b, "outcome="));
+            if oa.split(':').next() != ob.split(':').next() {
+                t.violation("C10.miri.outcome_differs_between_hash_seeds", format!("seed {seed0}: `{}`; seed {seed}: `{}`", a.chars().take(160).collect::<String>(), b.chars().take(160).collect::<String>()), || json!({"kind": "miri", "seed": seed, "reference_seed": seed0, "reference": a, "line": b}));
+            } else if !cli::reports_equal(&strip(a), &strip(b), 0.0) {
+                t.violation("C10.miri.result_differs_between_hash_seeds", format!("results differ between Miri seeds {seed0} and {seed} (replay: MIRIFLAGS=-Zmiri-seed={seed} cargo +nightly miri run in /verif/miri-driver): `{}` vs `{}`", strip(a).chars().take(300).collect::<String>(), strip(b).chars().take(300).collect::<String>()), || json!({"kind": "miri", "seed": seed, "reference_seed": seed0, "reference": a, "line": b}));
+            }
+            let o = format!("{}|{}", field(b, "order="), field(b, "aux_order="));
+            if o.len() > 1 {
+                t.set_insert("miri_iteration_orders", o);
+            }
+            t.count("miri_lines_compared");
+        }
+        t.nontrivial(*seed);
+        t.sample(|| json!({"miri_seed": seed, "first_line": lines.first()}));
+    }
+    let orders = t.sets.get("miri_iteration_orders").map(|s| s.len() as u64).unwrap_or(0);
+    Report {
+        tally: t,
+        rule: "the driver /verif/miri-driver (three small multi-system buildings: auxiliaries on several multi-service systems, heating + cooling outputs, ambient heat on two ids, cogeneration with two fuels, PV, negative and huge ids) is interpreted by Miri under -Zmiri-seed = 0..15; each seed fixes every HashMap / HashSet iteration order replayably; outcomes must agree and results must agree within rounding across seeds; distinct = Miri seeds".into(),
+        assumptions: vec!["Miri derives RandomState keys from its seeded RNG (isolation on)".into()],
+        quotas: vec![("distinct_miri_iteration_orders".into(), orders, 2)],
+    }
 }
